@@ -347,6 +347,36 @@ theorem failover_fallback_judged_at_failure (c : Fail.Cfg) (ops : List DOp) (d :
   intro st
   exact ⟨fun s i hc => Fail.call_listed hc, fun hc => Fail.call_listed_expired hc⟩
 
+/-- **failover: the result of a successful call is the fallback for a full ttl counted from THAT call** — however often
+and however long ago an equal result was stored before (every success writes the entry again and with it renews its
+expiry).  After any history: a call whose function returns after `d` ticks (outcome `ok`) stores `(now + d, id)`; let any
+time `dt` pass and the store's content stay (calls that fail, are turned down or whose store step fails do not touch it:
+`failover_returned_execution_answers`); a call whose function then runs for `d'` ticks and raises a listed exception is
+answered with exactly that result as long as `dt + d' < ttl`, and with the exception itself from `ttl` on. -/
+theorem failover_success_is_fallback_for_ttl (c : Fail.Cfg) (httl : 0 < c.ttl) (ops : List DOp) (d dt d' : Nat) :
+    let st := final (Fail.step c) Fail.init ops
+    let s1 := (Fail.call c st .ok d).1
+    (Fail.call c { s1 with t := advance s1.t dt } .listed d').2.res =
+      if dt + d' < c.ttl then .stored (st.t.now + d) st.nexec else .raised .listed := by
+  intro st s1
+  have hc : cached2 (advance (advance s1.t dt) d') = if dt + d' < c.ttl then some (st.t.now + d, st.nexec) else none := by
+    show cached2 (advance (advance (Fail.call c st .ok d).1.t dt) d') = _
+    unfold Fail.call Fail.afterExec
+    unfold cached2 TtlMap.find
+    simp only [advance_m, advance_now, write_now]
+    rw [write_m _ _ _ httl]
+    simp only [if_true, Entry.live]
+    by_cases h : dt + d' < c.ttl
+    · have : st.t.now + d + dt + d' < st.t.now + d + c.ttl := by omega
+      simp [this, h, pack2, unpack2]
+    · have : ¬ st.t.now + d + dt + d' < st.t.now + d + c.ttl := by omega
+      simp [this, h]
+  by_cases h : dt + d' < c.ttl
+  · rw [if_pos h] at hc ⊢
+    exact Fail.call_listed hc
+  · rw [if_neg h] at hc ⊢
+    exact Fail.call_listed_expired hc
+
 /-! ## hit -/
 
 /-- **hit: in any sequential history a stored result is served at most cache_hits times before the
@@ -745,6 +775,15 @@ the call (mirrored). -/
 example : answers (trace (Hit.step ⟨16, 2, 1, false⟩) Hit.init [.call .ok 2, .call .ok 3, .adv 15, .call .ok 2, .call .listed 0]) =
     [.call ⟨.fresh 2 0, true, false⟩, .call ⟨.stored 2 0, true, true⟩, .ok, .call ⟨.stored 5 1, true, true⟩,
      .call ⟨.raised .listed, true, true⟩] := by decide
+
+/-- failover: `(0,0)` stored at 0, a second success at 15 (an equal payload or not: every success is a write that renews the
+expiry), a listed failure at 30 — later than ttl after the first success, within ttl of the second — falls back to the
+second one; one tick later it is gone.  (The seeded change C14-15 skips the second write when the payloads are equal: the
+entry keeps the deadline 16 and the failure at 30 raises.) -/
+example : answers (trace (Fail.step ⟨16⟩) Fail.init
+      [.call .ok 0, .adv 15, .call .ok 0, .adv 15, .call .listed 0, .adv 1, .call .listed 0]) =
+    [.call ⟨.fresh 0 0, true, false⟩, .ok, .call ⟨.fresh 15 1, true, false⟩, .ok, .call ⟨.stored 15 1, true, false⟩, .ok,
+     .call ⟨.raised .listed, true, false⟩] := by decide
 
 /-! ### … with overlapping calls (ttl 2 s = 16 ticks, soft_ttl ½ s = 4 ticks) -/
 
